@@ -66,6 +66,12 @@ def gen_cases(seed, tier):
     # from the walker's default state): documents written as an alternation of text and formulas
     for _ in range(300 if quick else 4000):
         cases.append(_delim_case(rnd))
+    # chained parsing-state deltas on arguments and environment bodies (real code only)
+    for s in docgen.exhaustive(docgen.SYM_CHAINED, 3):
+        if '\\c' in s:
+            cases.append(PC.mk_case('chained', s, False, 'chained-deltas'))
+    for _ in range(400 if quick else 5000):
+        cases.append(PC.mk_case('chained', docgen.soup(rnd, docgen.SYM_CHAINED, 2, 9), False, 'chained-deltas'))
     return cases
 
 
@@ -142,18 +148,24 @@ def _mode(n):
     return (bool(ps.in_math_mode), ps.math_mode_delimiter)
 
 
+def _delta_mode(d, mode):
+    """the mode a parsing-state delta implies, given the mode it is applied in"""
+    from pylatexenc.latexnodes import (ParsingStateDeltaEnterMathMode, ParsingStateDeltaLeaveMathMode,
+                                       ParsingStateDeltaChained)
+    if isinstance(d, ParsingStateDeltaChained):
+        for x in d.parsing_state_deltas:
+            mode = _delta_mode(x, mode)
+        return mode
+    if isinstance(d, ParsingStateDeltaEnterMathMode):
+        return (True, None)
+    if isinstance(d, ParsingStateDeltaLeaveMathMode):
+        return (False, None)
+    return mode
+
+
 def _arg_modes(spec, mode):
-    from pylatexenc.latexnodes import ParsingStateDeltaEnterMathMode, ParsingStateDeltaLeaveMathMode
-    out = []
-    for a in (getattr(spec, 'arguments_spec_list', None) or []):
-        d = getattr(a, 'parsing_state_delta', None)
-        if isinstance(d, ParsingStateDeltaEnterMathMode):
-            out.append((True, None))
-        elif isinstance(d, ParsingStateDeltaLeaveMathMode):
-            out.append((False, None))
-        else:
-            out.append(mode)
-    return out
+    return [_delta_mode(getattr(a, 'parsing_state_delta', None), mode)
+            for a in (getattr(spec, 'arguments_spec_list', None) or [])]
 
 
 def _check(n, mode, path, table=None):
@@ -189,7 +201,8 @@ def _check(n, mode, path, table=None):
             if r:
                 return r
     if k == 'E':
-        bm = (True, None) if getattr(n.spec, 'is_math_mode', None) else mode
+        bm = (True, None) if getattr(n.spec, 'is_math_mode', None) else \
+            _delta_mode(getattr(n.spec, 'body_parsing_state_delta', None), mode)
         return _check(n.nodelist, bm, path + ['body'], table)
     return None
 
